@@ -91,8 +91,13 @@ def build(cfg, extra_mixins=(), tag="", extra_params=None, cache=True):
     )
 
     geo = RectangularDomainThreeFractures if cfg["dim"] == 2 else OrthogonalFractures3d
-    nonmatch = cfg.get("grid", "cart") == "nonmatch"
-    if nonmatch:
+    nonmatch = cfg.get("grid", "cart") in ("nonmatch", "square")
+    if cfg.get("grid", "cart") == "square":
+        # the matching twin of "nonmatch": same unit square and fractures, conforming grids
+        from porepy.applications.md_grids.model_geometries import SquareDomainOrthogonalFractures
+
+        geo = SquareDomainOrthogonalFractures
+    elif nonmatch:
         # unit square, orthogonal fractures, fracture and mortar grids refined by
         # different ratios: mortar cells do not match the cells on either side
         from porepy.applications.md_grids.model_geometries import (
